@@ -62,6 +62,9 @@ pub const CONTEXTS: &[(&str, &str)] = &[
     ("or", "(or #f CALL)"),
     ("when", "(when #t CALL)"),
     ("unless", "(unless #f CALL)"),
+    ("if-one-armed", "(if #t CALL)"),
+    ("and-3", "(and #t 1 CALL)"),
+    ("or-3", "(or #f #f CALL)"),
     ("apply", "APPLYCALL"),
 ];
 
@@ -73,23 +76,41 @@ pub struct Shape {
     pub start: &'static str,
     /// per body: (operator expression, argument list with NEXT for the decremented counter)
     pub calls: &'static [(&'static str, &'static str)],
+    /// closed form of the result after N iterations
+    pub result: fn(u32) -> i64,
+}
+
+fn ident(n: u32) -> i64 {
+    n as i64
+}
+/// la adds 1, lb adds 3, alternately, la first
+fn alternating(n: u32) -> i64 {
+    ((n + 1) / 2) as i64 + 3 * (n / 2) as i64
 }
 
 pub const SHAPES: &[Shape] = &[
-    Shape { name: "self", defs: "(define (loop n acc) BODY0)", start: "(loop N 0)", calls: &[("loop", "NEXT (+ acc 1)")] },
-    Shape { name: "mutual-2", defs: "(define (la n acc) BODY0) (define (lb n acc) BODY1)", start: "(la N 0)", calls: &[("lb", "NEXT (+ acc 1)"), ("la", "NEXT (+ acc 1)")] },
+    Shape { name: "self", defs: "(define (loop n acc) BODY0)", start: "(loop N 0)", calls: &[("loop", "NEXT (+ acc 1)")], result: ident },
+    Shape { name: "mutual-2", defs: "(define (la n acc) BODY0) (define (lb n acc) BODY1)", start: "(la N 0)", calls: &[("lb", "NEXT (+ acc 1)"), ("la", "NEXT (+ acc 1)")], result: ident },
     Shape {
         name: "mutual-3",
         defs: "(define (la n acc) BODY0) (define (lb n acc) BODY1) (define (lc n acc) BODY2)",
         start: "(la N 0)",
-        calls: &[("lb", "NEXT (+ acc 1)"), ("lc", "NEXT (+ acc 1)"), ("la", "NEXT (+ acc 1)")],
-    },
-    Shape { name: "procedure-parameter", defs: "(define (loop f n acc) BODY0)", start: "(loop loop N 0)", calls: &[("f", "f NEXT (+ acc 1)")] },
-    Shape { name: "variadic", defs: "(define (loop n . r) (define acc (car r)) BODY0)", start: "(loop N 0 'x 'y)", calls: &[("loop", "NEXT (+ acc 1) 'x 'y")] },
+        calls: &[("lb", "NEXT (+ acc 1)"), ("lc", "NEXT (+ acc 1)"), ("la", "NEXT (+ acc 1)")], result: ident },
+    Shape { name: "procedure-parameter", defs: "(define (loop f n acc) BODY0)", start: "(loop loop N 0)", calls: &[("f", "f NEXT (+ acc 1)")], result: ident },
+    Shape { name: "variadic", defs: "(define (loop n . r) (define acc (car r)) BODY0)", start: "(loop N 0 'x 'y)", calls: &[("loop", "NEXT (+ acc 1) 'x 'y")], result: ident },
     // every round runs a NEW closure of the same lambda whose captured k differs: the result is
     // right only if the trampoline really switches to the closure the tail call produced
-    Shape { name: "closure-with-captured-state", defs: "(define (make-step k) (lambda (n acc) BODY0))", start: "((make-step 0) N 0)", calls: &[("(make-step (+ k 1))", "NEXT (+ k 1)")] },
-    Shape { name: "closure-returned", defs: "(define (make-step) (lambda (n acc) BODY0))", start: "((make-step) N 0)", calls: &[("(make-step)", "NEXT (+ acc 1)")] },
+    Shape { name: "closure-with-captured-state", defs: "(define (make-step k) (lambda (n acc) BODY0))", start: "((make-step 0) N 0)", calls: &[("(make-step (+ k 1))", "NEXT (+ k 1)")], result: ident },
+    // the two procedures call each other through identically named PARAMETERS: the operator of every
+    // tail call is the same identifier, bound to a different procedure in every other frame
+    Shape {
+        name: "mutual-through-same-named-parameters",
+        defs: "(define (la self other n acc) BODY0) (define (lb self other n acc) BODY1)",
+        start: "(la la lb N 0)",
+        calls: &[("other", "other self NEXT (+ acc 1)"), ("other", "other self NEXT (+ acc 3)")],
+        result: alternating,
+    },
+    Shape { name: "closure-returned", defs: "(define (make-step) (lambda (n acc) BODY0))", start: "((make-step) N 0)", calls: &[("(make-step)", "NEXT (+ acc 1)")], result: ident },
 ];
 
 /// nest the contexts around the recursive call; `next` is the expression for the decremented
@@ -136,8 +157,20 @@ pub struct LoopResult {
     pub heap_second_half: isize,
 }
 
-pub fn run_loop(it: &mut Interp, shape: &Shape, ctxs: &[usize], n: u32) -> LoopResult {
+/// forms that fail in different ways (inside nested non-tail calls, in a tail call, while being
+/// expanded); a history of them precedes the loop in the "after-failures" cases
+pub const FAILING: &[&str] = &["(+ 1 (car 5))", "(list (list (vector-ref (vector) 0)))", "(undefined-procedure 1)", "(let)", "(cond)", "(fdeep 40)", "(car (cdr (list 1)))", "(when)"];
+const FDEEP: &str = "(define (fdeep n) (if (= n 0) (car 'bottom) (+ 1 (fdeep (- n 1)))))";
+
+pub fn run_loop(it: &mut Interp, shape: &Shape, ctxs: &[usize], n: u32, failures_before: u32) -> LoopResult {
     it.fresh_frame();
+    if failures_before > 0 {
+        let _ = it.eval(FDEEP);
+        for k in 0..failures_before {
+            let o = it.eval(FAILING[k as usize % FAILING.len()]);
+            assert!(!matches!(o, Outcome::Val(_)), "a failing form succeeded: {}", FAILING[k as usize % FAILING.len()]);
+        }
+    }
     let (defs, start) = program(shape, ctxs, n);
     for d in &defs {
         let o = it.eval(d);
@@ -175,11 +208,11 @@ pub enum Verdict {
     Bad(String, String, Option<&'static str>),
 }
 
-pub fn judge(r: &LoopResult, n: u32, ctx_names: &[&str]) -> Verdict {
+pub fn judge(r: &LoopResult, n: u32, expected: i64, ctx_names: &[&str]) -> Verdict {
     let mut problems = vec![];
-    let result_ok = matches!(&r.outcome, Outcome::Val(Obs::Int(v)) if *v == n as i32);
+    let result_ok = matches!(&r.outcome, Outcome::Val(Obs::Int(v)) if *v as i64 == expected);
     if !result_ok {
-        problems.push(format!("result {} (expected {})", r.outcome, n));
+        problems.push(format!("result {} (expected {})", r.outcome, expected));
     }
     if r.samples != n as usize + 1 && result_ok {
         problems.push(format!("{} probe calls (expected {})", r.samples, n + 1));
@@ -203,7 +236,7 @@ pub fn judge(r: &LoopResult, n: u32, ctx_names: &[&str]) -> Verdict {
     Verdict::Bad(": constant stack and heap per iteration, closed-form result".into(), problems.join("; "), known)
 }
 
-pub fn cases(max_depth: usize) -> Vec<(usize, Vec<usize>, u32)> {
+pub fn cases(max_depth: usize) -> Vec<(usize, Vec<usize>, u32, u32)> {
     let mut comps: Vec<Vec<usize>> = vec![];
     let mut level: Vec<Vec<usize>> = vec![vec![]];
     for _ in 0..max_depth {
@@ -224,7 +257,13 @@ pub fn cases(max_depth: usize) -> Vec<(usize, Vec<usize>, u32)> {
             // the long run for every single context, a shorter one for the compositions
             let long = if c.len() == 1 { 20_000 } else { 3_000 };
             for n in [64u32, long] {
-                out.push((si, c.clone(), n));
+                out.push((si, c.clone(), n, 0));
+            }
+            // the same loop after a history of failed evaluations on the same interpreter / thread
+            if c.len() == 1 {
+                for f in [300u32, 3000] {
+                    out.push((si, c.clone(), 3000, f));
+                }
             }
         }
     }
@@ -245,10 +284,13 @@ pub fn run(ctx: &Ctx) -> i32 {
             it
         },
         |it, acc: &mut Acc, i| {
-            let (si, ctxs, n) = &csr[i as usize];
+            let (si, ctxs, n, fails) = &csr[i as usize];
             let shape = &SHAPES[*si];
             let names: Vec<&str> = ctxs.iter().map(|c| CONTEXTS[*c].0).collect();
-            let r = run_loop(it, shape, ctxs, *n);
+            let r = run_loop(it, shape, ctxs, *n, *fails);
+            if *fails > 0 {
+                acc.count(&format!("after-failures={}", fails), 1);
+            }
             acc.evals += 1;
             acc.transitions += r.samples as u64;
             acc.count(&format!("shape={}", shape.name), 1);
@@ -257,12 +299,12 @@ pub fn run(ctx: &Ctx) -> i32 {
                 let (defs, start) = program(shape, ctxs, *n);
                 acc.sample(i, json!({"definitions": defs, "start": start, "probe_calls": r.samples, "max_stack_depth": r.stack_second_half, "max_live_heap": r.heap_second_half}));
             }
-            match judge(&r, *n, &names) {
+            match judge(&r, *n, (shape.result)(*n), &names) {
                 Verdict::Ok(h) => acc.distinct_hash(hash_of(&(h, shape.name, &names))),
                 Verdict::Bad(e, o, known) => {
                     let (defs, start) = program(shape, ctxs, *n);
                     acc.mismatch(
-                        Mismatch { idx: i, case: format!("[{} / {}] {}\n{}", shape.name, names.join(">"), defs.join("\n"), start), expected: e, observed: o, payload: json!({"shape": si, "contexts": ctxs, "n": n}) },
+                        Mismatch { idx: i, case: format!("[{} / {}{}] {}\n{}", shape.name, names.join(">"), if *fails > 0 { format!(" / after {} failed evaluations", fails) } else { String::new() }, defs.join("\n"), start), expected: e, observed: o, payload: json!({"shape": si, "contexts": ctxs, "n": n, "failures_before": fails}) },
                         known,
                     );
                 }
@@ -276,7 +318,7 @@ pub fn run(ctx: &Ctx) -> i32 {
             tier: ctx.tier_name(),
             seed: ctx.seed,
             exhaustive: true,
-            rule: format!("every composition of the {} tail contexts {:?} of length 1..{} x {} loop shapes {:?} x N in {{64, 20000 (single contexts) / 3000 (compositions)}}; every loop body calls a native probe that samples the machine stack depth and the thread's live heap; evaluations = loops, transitions = iterations observed; distinct = distinct (stack depth, heap delta) signatures", CONTEXTS.len(), CONTEXTS.iter().map(|c| c.0).collect::<Vec<_>>(), depth, SHAPES.len(), SHAPES.iter().map(|s| s.name).collect::<Vec<_>>()),
+            rule: format!("every composition of the {} tail contexts {:?} of length 1..{} x {} loop shapes {:?} x N in {{64, 20000 (single contexts) / 3000 (compositions)}}, every single-context loop also after a history of 300 and 3000 failed evaluations (8 kinds, incl. errors deep inside non-tail recursion and rejected macro uses) on the same interpreter; every loop body calls a native probe that samples the machine stack depth and the thread's live heap; evaluations = loops, transitions = iterations observed; distinct = distinct (stack depth, heap delta) signatures", CONTEXTS.len(), CONTEXTS.iter().map(|c| c.0).collect::<Vec<_>>(), depth, SHAPES.len(), SHAPES.iter().map(|s| s.name).collect::<Vec<_>>()),
             bounds: json!({"loops": total, "context_depth": depth, "iterations": [64, 3000, 20000]}),
             assumptions: vec!["the invariant (no growth between the first and the second half of the iterations, byte-exact for the stack, 256 B slack for the heap) is what extends the claim beyond the executed N".into(), "live heap = bytes allocated minus freed on the evaluating thread (counting global allocator of the harness)".into()],
             wall_s: ctx.elapsed(),
@@ -289,14 +331,15 @@ pub fn replay(p: &serde_json::Value) -> bool {
     let si = p["shape"].as_u64().unwrap() as usize;
     let ctxs: Vec<usize> = p["contexts"].as_array().unwrap().iter().map(|x| x.as_u64().unwrap() as usize).collect();
     let n = p["n"].as_u64().unwrap() as u32;
+    let fails = p["failures_before"].as_u64().unwrap_or(0) as u32;
     crate::drive::on_fresh_thread(move || {
         let mut it = Interp::new().unwrap();
         it.it.env.define("probe".to_string(), probe_proc());
-        let r = run_loop(&mut it, &SHAPES[si], &ctxs, n);
+        let r = run_loop(&mut it, &SHAPES[si], &ctxs, n, fails);
         let names: Vec<&str> = ctxs.iter().map(|c| CONTEXTS[*c].0).collect();
         let (defs, start) = program(&SHAPES[si], &ctxs, n);
         println!("{}\n{}", defs.join("\n"), start);
-        match judge(&r, n, &names) {
+        match judge(&r, n, (SHAPES[si].result)(n), &names) {
             Verdict::Ok(_) => false,
             Verdict::Bad(e, o, k) => {
                 println!("expected {}\nobserved {}", e, o);
